@@ -145,6 +145,8 @@ pub struct Cfg {
     pub wv: f32,
     pub vis: VisOpts,
     pub auto_waste: Option<usize>,
+    /// address scene 0 through the scene-less API variants
+    pub sceneless0: bool,
 }
 impl Cfg {
     pub fn js(&self) -> Value {
@@ -240,6 +242,15 @@ pub struct LiveTrack {
 // ------------------------------------------------------------------------------------------------
 // uniform wrapper
 
+thread_local! {
+    /// when set (per tracker configuration), scene 0 is addressed through the scene-less API variants
+    /// (`predict`, `skip_epochs`, `current_epoch`, `idle_tracks`) instead of the `_with_scene(0, ..)` ones
+    static SCENELESS0: std::cell::Cell<bool> = std::cell::Cell::new(false);
+}
+fn sceneless(scene: u64) -> bool {
+    scene == 0 && SCENELESS0.with(|c| c.get())
+}
+
 pub enum AnyTracker {
     Sort(Sort),
     BatchSort(BatchSort),
@@ -290,6 +301,7 @@ macro_rules! each {
 
 impl AnyTracker {
     pub fn new(cfg: &Cfg) -> AnyTracker {
+        SCENELESS0.with(|c| c.set(cfg.sceneless0));
         let pm = match cfg.pos {
             PosMetric::IoU(t) => PositionalMetricType::IoU(t),
             PosMetric::Maha => PositionalMetricType::Mahalanobis,
@@ -311,11 +323,11 @@ impl AnyTracker {
         match self {
             AnyTracker::Sort(t) => {
                 let v: Vec<(Universal2DBox, Option<i64>)> = dets.iter().map(|d| (d.b.lib(), d.custom)).collect();
-                t.predict_with_scene(scene, &v).iter().map(Rec::from_lib).collect()
+                if sceneless(scene) { t.predict(&v) } else { t.predict_with_scene(scene, &v) }.iter().map(Rec::from_lib).collect()
             }
             AnyTracker::Visual(t) => {
                 let v: Vec<VisualSortObservation> = dets.iter().map(|d| VisualSortObservation::new(d.feature.as_deref(), d.quality, d.b.lib(), d.custom)).collect();
-                t.predict_with_scene(scene, &v).iter().map(Rec::from_lib).collect()
+                if sceneless(scene) { t.predict(&v) } else { t.predict_with_scene(scene, &v) }.iter().map(Rec::from_lib).collect()
             }
             _ => {
                 if dets.is_empty() {
@@ -404,10 +416,18 @@ impl AnyTracker {
     }
 
     pub fn skip_epochs(&mut self, scene: u64, n: usize) {
-        each!(self, t => t.skip_epochs_for_scene(scene, n))
+        if sceneless(scene) {
+            each!(self, t => t.skip_epochs(n))
+        } else {
+            each!(self, t => t.skip_epochs_for_scene(scene, n))
+        }
     }
     pub fn epoch(&self, scene: u64) -> usize {
-        each!(self, t => t.current_epoch_with_scene(scene))
+        if sceneless(scene) {
+            each!(self, t => t.current_epoch())
+        } else {
+            each!(self, t => t.current_epoch_with_scene(scene))
+        }
     }
     pub fn set_auto_waste(&mut self, p: usize) {
         each!(self, t => t.set_auto_waste(p))
@@ -422,7 +442,11 @@ impl AnyTracker {
         each!(self, t => t.wasted_shard_stats())
     }
     pub fn idle(&mut self, scene: u64) -> Vec<Rec> {
-        each!(self, t => t.idle_tracks_with_scene(scene).iter().map(Rec::from_lib).collect())
+        if sceneless(scene) {
+            each!(self, t => t.idle_tracks().iter().map(Rec::from_lib).collect())
+        } else {
+            each!(self, t => t.idle_tracks_with_scene(scene).iter().map(Rec::from_lib).collect())
+        }
     }
     pub fn wasted(&mut self) -> Vec<WastedRec> {
         match self {
@@ -616,6 +640,9 @@ pub struct Obj {
     pub proto: Vec<f32>,
     /// per-frame appearance noise (std per component, unit-norm prototype)
     pub fnoise: f64,
+    /// the embedding of this world's detections comes in varying lengths (feat_dim plus 0 / 8 / 16 extra components):
+    /// distances between features of different length are defined on the common packed prefix
+    pub flen_mix: bool,
     pub visible_from: usize,
     pub gone_at: usize,
     pub gap_at: usize,
@@ -658,6 +685,7 @@ pub fn gen_world(rng: &mut Rng, o: &WorldOpts) -> Vec<Obj> {
     // appearance stability of this world: mostly stable embeddings, sometimes noisy ones (same-object similarities then
     // spread over 0.3..0.95, so that low cosine / wide Euclidean thresholds matter)
     let fnoise = *rng.pick(&[0.03f64, 0.03, 0.03, 0.12, 0.35]);
+    let flen_mix = o.features && rng.chance(0.15);
     for s in 0..o.scenes {
         let lone = o.vary_nobj && s > 0 && rng.chance(0.5);
         for k in 0..o.nobj {
@@ -731,10 +759,12 @@ pub fn gen_world(rng: &mut Rng, o: &WorldOpts) -> Vec<Obj> {
                 h,
                 aspect: rng.uniform(0.4, 1.6),
                 angle: if o.rotated && rng.chance(0.6) { Some(rng.uniform(0.05, 3.0)) } else { None },
-                dangle: if o.rotated { rng.uniform(-0.03, 0.03) } else { 0.0 },
+                // half of the rotated objects keep a constant orientation (the filter's estimated angle then equals the detected one)
+                dangle: if o.rotated && rng.chance(0.5) { rng.uniform(-0.03, 0.03) } else { 0.0 },
                 grow: rng.uniform(0.995, 1.005),
                 proto,
                 fnoise,
+                flen_mix,
                 visible_from,
                 gone_at,
                 gap_at,
@@ -798,7 +828,13 @@ pub fn step_scene(rng: &mut Rng, objs: &mut [Obj], scene: u64, step: usize, o: &
             conf: ob.conf,
         };
         let feature = if o.features && !rng.chance(0.08) {
-            Some(ob.proto.iter().map(|p| p + (rng.normal() * ob.fnoise) as f32).collect::<Vec<f32>>())
+            let mut f = ob.proto.iter().map(|p| p + (rng.normal() * ob.fnoise) as f32).collect::<Vec<f32>>();
+            if ob.flen_mix {
+                for _ in 0..8 * rng.usize(3) {
+                    f.push((rng.normal() * 0.02) as f32);
+                }
+            }
+            Some(f)
         } else {
             None
         };
@@ -950,6 +986,7 @@ pub fn gen_cfg(rng: &mut Rng, kind: Kind) -> Cfg {
             own_collect: *rng.pick(&[0.0f32, 0.0, 0.3, 0.6]),
         },
         auto_waste: None,
+        sceneless0: rng.chance(0.5),
     }
 }
 
